@@ -504,18 +504,40 @@ pub fn rotation_workloads(tier: Tier) -> Vec<(OptSet, Vec<Wop>)> {
 		// eventual commits after the rotation, then a synced WAL flush: they are durable from there on
 		vec![Wop::W(vec![Write::set(b"zz1", b"after-rotation-1")], false), Wop::W(vec![Write::set(b"zz2", b"after-rotation-2")], false), Wop::Sync, Wop::W(vec![Write::set(b"zz3", b"after-sync")], false)],
 	];
-	let shapes: Vec<(usize, bool)> = if tier == Tier::Quick { vec![(70, false), (30, true)] } else { vec![(70, false), (30, true), (140, false), (60, true)] };
-	for (n, multi) in shapes {
+	// the rotation-triggering commit as the LAST commit (whatever its index is: every length in a
+	// window around it), Immediate, followed by the flush of the rotated memtable and the
+	// clean-up of its segment: nothing after it syncs the new segment again
+	{
+		let (lo, hi) = if tier == Tier::Quick { (18usize, 28usize) } else { (12, 40) };
+		for n in lo..=hi {
+			for imm_all in [true, false] {
+				let mut ops = vec![];
+				for i in 0..n {
+					ops.push(Wop::W(vec![Write::set(format!("k{i:03}").as_bytes(), &tok(i))], imm_all || i + 1 == n));
+				}
+				ops.push(Wop::P(Phys::FlushOldest));
+				ops.push(Wop::P(Phys::Drain));
+				out.push((opt.clone(), ops));
+			}
+		}
+	}
+	// (commits, three-key transactions?, every commit Immediate?) - with every commit Immediate the
+	// commit that triggers the rotation is an Immediate one, whatever its index
+	let shapes: Vec<(usize, bool, bool)> = if tier == Tier::Quick { vec![(70, false, false), (30, true, false), (70, false, true)] } else { vec![(70, false, false), (30, true, false), (140, false, false), (60, true, false), (70, false, true), (30, true, true)] };
+	for (n, multi, all_imm) in shapes {
 		for tail in &tails {
+			if all_imm && tail.len() > 2 {
+				continue;
+			}
 			let mut ops = vec![];
 			for i in 0..n {
 				if multi {
 					ops.push(Wop::W(
 						vec![Write::set(format!("k{i:03}x").as_bytes(), &tok(i)), Write::set(format!("k{i:03}y").as_bytes(), &tok(i)), Write::set(format!("k{i:03}z").as_bytes(), &tok(i))],
-						false,
+						all_imm,
 					));
 				} else {
-					ops.push(Wop::W(vec![Write::set(format!("k{i:03}").as_bytes(), &tok(i))], i % 5 == 4));
+					ops.push(Wop::W(vec![Write::set(format!("k{i:03}").as_bytes(), &tok(i))], all_imm || i % 5 == 4));
 				}
 			}
 			ops.extend(tail.iter().cloned());
